@@ -299,6 +299,61 @@ def replay(pid, path):
     return 0
 
 
+# ----------------------------------------------------------------------------- coverage-guided tier
+
+
+def run_fuzz_tier(prop, pid, tier, seed, results):
+    """thorough tier only, for modules that name a FUZZ_TARGET: 8 atheris shards (libFuzzer -seed / -runs pinned);
+    violations come back as ordinary found-entries, statistics go to the evidence"""
+    import shutil
+    import subprocess
+    import tempfile
+
+    target = getattr(prop, "FUZZ_TARGET", None)
+    deps = os.path.join(VERIF_DIR, ".deps")
+    if tier != "thorough" or target is None:
+        return None
+    if not os.path.isdir(os.path.join(deps, "atheris")):
+        return {"skipped": "atheris not installed (setup.sh could not install it)"}
+    runs = int(getattr(prop, "FUZZ_RUNS", 60000))
+    base = tempfile.mkdtemp(prefix=f"fvfuzz-{pid}-")
+    info = {"engine": "atheris/libFuzzer", "shards": 8, "runs_per_shard": runs, "executions": 0, "decoded": 0, "nontrivial": 0}
+    procs = []
+    env = dict(os.environ, PYTHONPATH=deps + os.pathsep + VERIF_DIR + os.pathsep + os.environ.get("PYTHONPATH", ""))
+    try:
+        for i in range(8):
+            out = os.path.join(base, f"shard{i}")
+            corp = os.path.join(out, "corpus")
+            os.makedirs(corp)
+            cmd = [sys.executable, "-m", "fv.fuzz_planner", target, out, corp, f"-runs={runs}", f"-seed={seed * 8 + i + 1}", "-max_len=160",
+                   "-len_control=0", "-print_final_stats=0"]  # fmt: skip
+            procs.append((out, subprocess.Popen(cmd, cwd=VERIF_DIR, env=env, stdout=subprocess.DEVNULL, stderr=subprocess.DEVNULL)))
+        for out, p in procs:
+            try:
+                p.wait(timeout=1500)
+            except subprocess.TimeoutExpired:
+                p.kill()
+                info["timeout"] = True
+            sp = os.path.join(out, f"stats-{target}.json")
+            if os.path.exists(sp):
+                st = json.load(open(sp))
+                info["executions"] += st.get("runs", 0)
+                info["decoded"] += st.get("decoded", 0)
+                info["nontrivial"] += st.get("nontrivial", 0)
+            vp = os.path.join(out, f"fuzz-{target}.json")
+            if os.path.exists(vp):
+                v = json.load(open(vp))
+                key = "\x1f".join(v["signature"])
+                results.append({"evaluations": 0, "nontrivial": set(), "labels": {}, "samples": [], "excluded_known": {}, "excluded_reported": 0,
+                                "found": {key: (len(canon(v["case"])), v["case"], "[atheris] " + v["message"])}, "notes": [], "harness_error": None,
+                                "budget_hit": False})  # fmt: skip
+    finally:
+        shutil.rmtree(base, ignore_errors=True)
+    results.append({"evaluations": info["decoded"], "nontrivial": set(), "labels": {"fuzz-executions": info["executions"]}, "samples": [],
+                    "excluded_known": {}, "excluded_reported": 0, "found": {}, "notes": [f"atheris: {info}"], "harness_error": None, "budget_hit": False})  # fmt: skip
+    return info
+
+
 # ----------------------------------------------------------------------------- main
 
 
@@ -386,6 +441,7 @@ def main(argv=None):
         print(f"HARNESS-ERROR property={pid} (worker pool)")
         return 2
 
+    fuzz_info = run_fuzz_tier(prop, pid, a.tier, seed, results)
     harness_errors = [r["harness_error"] for r in results if r["harness_error"]]
     if harness_errors:
         print(harness_errors[0])
